@@ -461,6 +461,10 @@ func (w *c15World) checkIndexes(where string) {
 						bad = p
 					}
 				}()
+			case *crdt.Tree:
+				if p := treeChainProblem(v); p != "" {
+					bad = p
+				}
 			}
 		}
 		walk(w.docs[n].RootObject())
